@@ -27,7 +27,15 @@ MXSS = ["<svg>", "</svg>", "<math>", "</math>", "<foreignObject>", "<desc>", "<t
         "<template>", "<frameset>", "<body onload=x>", "<html xmlns:x=y>", "<base href=javascript:x>", "<object data=x>",
         "<embed src=x>", "<use xlink:href='javascript:x'>", "<a xlink:href=javascript:x>", "<set attributeName=href to=javascript:x>",
         "<font color=red>", "<div style='x:expression(y)'>", "<br>", "<hr>", "x", " ", "\n", "&", "<", ">", "\"", "'", "`", "=",
-        "<b>", "</b>", "<i>", "</i>", "<nobr>", "<a>", "</a>", "<em>", "<caption>", "<col>", "<optgroup>", "<rt>", "<li>", "<dd>"]
+        "<b>", "</b>", "<i>", "</i>", "<nobr>", "<a>", "</a>", "<em>", "<caption>", "<col>", "<optgroup>", "<rt>", "<li>", "<dd>",
+        "</br>", "</div>", "</td>", "</tr>", "</select>", "</body>", "</html>", "</h1>", "</li>", "</title>", "<g>", "</g>", "</desc>",
+        "</foreignObject>", "</mi>", "</annotation-xml>", "<html>", "<tbody>", "<colgroup>"] + \
+       ["<a title=\"</%s><img src=x onerror=alert(1)>\">" % r for r in
+        ("title", "style", "textarea", "xmp", "iframe", "noscript", "noembed", "noframes", "script", "plaintext")]
+RAWLIKE = ["title", "style", "textarea", "xmp", "iframe", "noscript", "noembed", "noframes", "script", "listing", "plaintext"]
+CLOSERS = ["p", "br", "div", "span", "b", "a", "table", "tr", "td", "select", "option", "body", "html", "head", "h1", "li", "dd", "form",
+           "button", "template", "svg", "math", "g", "desc", "title", "foreignObject", "mi", "mtext", "annotation-xml", "font", "nobr",
+           "applet", "marquee", "object", "caption", "colgroup", "tbody", "frameset", "style", "script", "textarea"]
 CONTEXTS = [None, "div", "td", "select", "svg", "math", "title", "textarea", "table", "template", "noscript", "style"]
 
 
@@ -87,6 +95,17 @@ class C10(Plugin):
             for ctx in (None, "div", "svg", "select"):
                 out.append({"k": 1, "opts": base, "markup": m, "tree": "dom", "omit": True, "ctx": ctx, "scripting": False})
                 out.append({"k": 0, "opts": base, "markup": m, "tree": "etree", "omit": False, "ctx": None, "scripting": False})
+        # trees that cannot be written back: an end tag inside foreign content, then a raw-text-like element whose
+        # attribute value carries markup (if the end tag misplaces an HTML element, the re-parse reads that markup)
+        i = 0
+        for root in ("<svg>", "<math>", "<svg><g>", "<math><mi>", "<svg><desc>", "<table><svg>", "<select><svg>", "<svg><title>"):
+            for cl in CLOSERS:
+                r = RAWLIKE[i % len(RAWLIKE)]
+                i += 1
+                m = "%s</%s><%s><a title=\"</%s><img src=x onerror=alert(1)>\">" % (root, cl, r, r)
+                out.append({"k": 1, "opts": base, "markup": m, "tree": "etree" if i % 2 else "dom", "omit": bool(i % 3), "ctx": None,
+                            "scripting": False})
+                out.append({"k": 1, "opts": base, "markup": m, "tree": "dom", "omit": False, "ctx": "div", "scripting": i % 4 == 0})
         return out
 
     def known_witnesses(self):
